@@ -36,7 +36,7 @@ type Op struct {
 	Code     int    `json:"code,omitempty"`      // 0 = most recently issued code, k = k-th before it (mod count)
 	CodeForm string `json:"code_form,omitempty"` // "" as issued | mangled | garbage
 	As       int    `json:"as,omitempty"`        // whose credentials: 0 = the client the code was issued to, k = Clients[(k-1) mod n]
-	Pres     string `json:"pres,omitempty"`      // "" registered method, right secret/key | wrong_secret | id_only | swap_method | bad_key | foreign_key (assertion naming the As client, its kid, signed with the registered key of ANOTHER private_key_jwt client: the one that last authenticated with an assertion in this history, else any other) | none | stored_basic | stored_post (private_key_jwt client for which the storage also holds a secret: that secret instead of an assertion)
+	Pres     string `json:"pres,omitempty"`      // "" registered method, right secret/key | wrong_secret | id_only (client_id form value, nothing else) | id_basic_empty (Basic header naming the client, empty password) | id_post_empty (client_id plus an empty client_secret parameter) | swap_method | bad_key | foreign_key (assertion naming the As client, its kid, signed with the registered key of ANOTHER private_key_jwt client: the one that last authenticated with an assertion in this history, else any other) | none | stored_basic | stored_post (private_key_jwt client for which the storage also holds a secret: that secret instead of an assertion)
 	BodyID   string `json:"body_id,omitempty"`   // extra client_id form value: "" | own (the As client) | owner (the code's client)
 	Redirect string `json:"redirect,omitempty"`  // "" the request's | other (another registered one) | caller (one of the As client) | missing | a near-miss derivation of the request's (nearKinds)
 	Ver      string `json:"ver,omitempty"`       // "" the request's verifier | wrong | missing | other (verifier of another request) | challenge (the challenge string itself)
@@ -47,11 +47,14 @@ type Op struct {
 }
 
 type Case struct {
-	ErrStyle string            `json:"err_style,omitempty"` // how the storage words its own refusals (vkit.Store.refuse)
-	Router   string            `json:"router"`
-	SignAlg  string            `json:"sign_alg"`
-	Clients  []vkit.ClientSpec `json:"clients"`
-	Ops      []Op              `json:"ops"`
+	ErrStyle string `json:"err_style,omitempty"` // how the storage words its own refusals (vkit.Store.refuse)
+	// EmptySecretOK: the storage compares secrets as plain strings, so a client that holds no secret "matches" an empty presented
+	// one (vkit.StorePolicy.EmptySecretOK; what example/server/storage does). Whoever presents nothing has proved nothing.
+	EmptySecretOK bool              `json:"empty_secret_ok,omitempty"`
+	Router        string            `json:"router"`
+	SignAlg       string            `json:"sign_alg"`
+	Clients       []vkit.ClientSpec `json:"clients"`
+	Ops           []Op              `json:"ops"`
 }
 
 const (
@@ -258,7 +261,7 @@ func genFault(t *rapid.T, methods []string, maxCall int) *vkit.Fault {
 	return f
 }
 
-var presChoices = []string{"", "", "", "", "", "", "", "", "wrong_secret", "id_only", "swap_method", "bad_key", "foreign_key", "foreign_key", "none", "stored_basic", "stored_post"}
+var presChoices = []string{"", "", "", "", "", "", "", "", "wrong_secret", "id_only", "id_basic_empty", "id_post_empty", "swap_method", "bad_key", "foreign_key", "foreign_key", "none", "stored_basic", "stored_post"}
 
 func genExchange(t *rapid.T, nClients int, pk []int) Op {
 	o := Op{Kind: "exchange"}
@@ -295,6 +298,7 @@ func genCase(t *rapid.T) Case {
 	if rapid.Bool().Draw(t, "errstyled") {
 		c.ErrStyle = rapid.SampledFrom(vkit.ErrStyles).Draw(t, "errstyle")
 	}
+	c.EmptySecretOK = rapid.Bool().Draw(t, "empty-secret-ok")
 	return c
 }
 
@@ -594,6 +598,10 @@ func (e *exec) present(o Op, as, owner *vkit.ClientSpec) (vkit.Cred, wire) {
 		}
 	case "id_only":
 		cr = vkit.Cred{Kind: "none", ClientID: as.ID}
+	case "id_basic_empty":
+		cr = vkit.Cred{Kind: "basic", ClientID: as.ID, Secret: ""}
+	case "id_post_empty":
+		cr = vkit.Cred{Kind: "post", ClientID: as.ID, Secret: ""}
 	case "swap_method":
 		switch as.AuthMethod {
 		case "client_secret_basic":
@@ -842,6 +850,22 @@ func (e *exec) exchange(i int, o Op) {
 	}
 
 	e.res.Label("as:" + map[bool]string{true: "owner", false: "other-client"}[as == owner])
+	// the caller names the code's client and presents nothing else (no assertion, no or an empty secret): for a confidential
+	// client that proves nothing, whatever the storage makes of an empty secret
+	bareNote := ""
+	if via, id := w.bare(); id == owner.ID {
+		e.res.Label("ex:bare-id:"+ownerKind, "ex:bare-id-via:"+via)
+		if e.c.EmptySecretOK && owner.Secret == "" {
+			e.res.Label("ex:bare-id:" + ownerKind + ":storage-accepts-empty-secret")
+			if !public(owner) {
+				bareNote = "(bare-id,storage-accepts-empty-secret)"
+			}
+		}
+	}
+	switch o.Pres {
+	case "id_only", "id_basic_empty", "id_post_empty":
+		e.res.Label("pres:" + o.Pres + ":" + clientKind(as))
+	}
 	if vd.v != 0 {
 		e.asserted++
 	}
@@ -872,7 +896,7 @@ func (e *exec) exchange(i int, o Op) {
 		}
 		if !(len(vd.reasons) == 1 && vd.reasons[0] == "unknown-code") {
 			e.refusedNonTriv++
-			e.noKeys[strings.Join(vd.reasons, "+")+"@"+ownerKind] = true
+			e.noKeys[strings.Join(vd.reasons, "+")+bareNote+"@"+ownerKind] = true
 		}
 	case 0:
 		e.res.Label("ex:grey")
@@ -1061,7 +1085,7 @@ func run(c Case) (res *vkit.Result) {
 	regs = append(regs, &e.rs)
 	e.signKey = vkit.Key(signKeys[c.SignAlg])
 	// every token also names the resource server "rs" as audience, which lets it introspect tokens of public clients too
-	e.st = vkit.NewStore(regs, vkit.SignKeySpec{KeyName: signKeys[c.SignAlg], Alg: c.SignAlg, KID: "sig1"}, vkit.StorePolicy{ExtraAudience: []string{rsID}, ErrStyle: c.ErrStyle})
+	e.st = vkit.NewStore(regs, vkit.SignKeySpec{KeyName: signKeys[c.SignAlg], Alg: c.SignAlg, KID: "sig1"}, vkit.StorePolicy{ExtraAudience: []string{rsID}, ErrStyle: c.ErrStyle, EmptySecretOK: c.EmptySecretOK})
 	e.sut = vkit.MustBuild(vkit.DefaultProviderSpec(c.Router), e.st)
 	e.ag = vkit.NewAgent(e.sut)
 
@@ -1078,7 +1102,7 @@ func run(c Case) (res *vkit.Result) {
 		}
 	}
 
-	res.Label("router:" + c.Router)
+	res.Label("router:"+c.Router, "store:empty-secret-ok="+fmt.Sprint(c.EmptySecretOK))
 	res.Grey = e.asserted == 0 // nothing but grey exchanges (or none at all): only "no code before login" was asserted
 	res.NonTrivial = e.accepted > 0 && e.refusedNonTriv > 0
 	keys := func(m map[string]bool) []string {
@@ -1119,9 +1143,9 @@ func run(c Case) (res *vkit.Result) {
 
 var prop = vkit.Prop[Case]{
 	ID: "C04",
-	Rule: "cases = router (provider | legacy) x id-token alg x 3-5 registered clients (client_secret_basic, client_secret_post, private_key_jwt - half of them with a secret the storage also holds; each with its own key, whose key id is either the client's own or one that several clients use for their different keys -, public native / user-agent; a redirect URI shared on purpose, some registered URIs with a query, an empty path, a trailing slash or a port; opaque or JWT access tokens) " +
+	Rule: "cases = router (provider | legacy) x storage secret comparison (diligent: a client without a secret never matches | plain string equality: a client that holds no secret matches an empty presented one, as example/server/storage does) x id-token alg x 3-5 registered clients (client_secret_basic, client_secret_post, private_key_jwt - half of them with a secret the storage also holds; each with its own key, whose key id is either the client's own or one that several clients use for their different keys -, public native / user-agent; a redirect URI shared on purpose, some registered URIs with a query, an empty path, a trailing slash or a port; opaque or JWT access tokens) " +
 		"x history of 3-40 ops: authorize(client, registered uri, pkce none|plain|plain-without-method|S256, verifier from a pool of 4, scopes, nonce), login(req, user), callback(req), " +
-		"exchange(code incl. replays / mangled / garbage, as owner or another client, presentation right|wrong secret|id only|other method|assertion with unregistered key|assertion naming the client and its key id but signed with the registered key of another private_key_jwt client (preferably one with the same key id that authenticated earlier in the history)|none|stored secret of a private_key_jwt client via Basic / POST instead of an assertion, extra body client_id, " +
+		"exchange(code incl. replays / mangled / garbage, as owner or another client, presentation right|wrong secret|nothing proved, for every client kind: client_id form value only / Basic header naming the client with an empty password / client_id plus an empty client_secret parameter (a confidential client - secret or private_key_jwt - named that way must never be served, whatever the storage makes of an empty secret; a public client identifies that way)|other method|assertion with unregistered key|assertion naming the client and its key id but signed with the registered key of another private_key_jwt client (preferably one with the same key id that authenticated earlier in the history)|none|stored secret of a private_key_jwt client via Basic / POST instead of an assertion, extra body client_id, " +
 		"redirect same|other registered|caller's|missing|12 near-miss derivations of the request's URI (added query / fragment / userinfo / default port / extra or .. segment, trailing slash toggled, host or scheme upper-cased, percent-encoded path letter, query reordered / dropped; all must be refused), verifier right|wrong|missing|of another request|the challenge itself, extra nonce/scope parameters; about every 5th exchange and some callbacks with ONE storage fault in that very request: every call of a method on the path or the k-th storage call, kind error|deadline|partial (effect happens, error reported)|oidc|oidc-wrapped); " +
 		"oracle = code state machine written from the statement, two-sided; grey (asserts nothing on accept/refuse, still checks claims of issued tokens): mixed identity or non-registered method (incl. a private_key_jwt client presenting the secret its storage accepts: a genuine credential of that very client, whether the method may be used is property C05's subject; redeeming another client's code that way is must-reject), verifier without challenge, " +
 		"a second code of a request whose other code was exchanged; an otherwise valid exchange in which a storage fault fired (may fail: C10's subject) and, after such a request answered without tokens, later otherwise valid exchanges of that request's codes (the storage may or may not have dropped it) - " +
